@@ -53,6 +53,8 @@ func bodyLen(shape, i int) int {
 		return 0
 	case 1:
 		return 9 + i%5
+	case 3: // larger than every intermediate buffer (bufio 8 KB, read buffer growth steps, h2 frame size)
+		return 20000 + 13*(i%7)
 	}
 	return 150 + 7*(i%4)
 }
@@ -165,10 +167,10 @@ func buildHTTP1(i, shape int) msg {
 	var b bytes.Buffer
 	n := bodyLen(shape, i)
 	if shape == 0 {
-		fmt.Fprintf(&b, "GET /p/%s?q=1 HTTP/1.1\r\nHost: c07.test\r\nX-Id: %s\r\n\r\n", marker(i), marker(i))
+		fmt.Fprintf(&b, "GET /p/%s?q=1 HTTP/1.1\r\nHost: c07.test\r\nX-Id: %s\r\nX-Token: %s\r\n\r\n", marker(i), marker(i), marker(i))
 		return msg{b: b.Bytes(), lenMid: 2, hdrEnd: b.Len() - 2, marker: marker(i)}
 	}
-	fmt.Fprintf(&b, "POST /p/%s HTTP/1.1\r\nHost: c07.test\r\nX-Id: %s\r\nContent-Length: %d\r\n\r\n", marker(i), marker(i), n)
+	fmt.Fprintf(&b, "POST /p/%s HTTP/1.1\r\nHost: c07.test\r\nX-Id: %s\r\nX-Token: %s\r\nContent-Length: %d\r\n\r\n", marker(i), marker(i), marker(i), n)
 	he := b.Len()
 	b.Write(body(i, n))
 	return msg{b: b.Bytes(), lenMid: 2, hdrEnd: he, marker: marker(i)}
